@@ -386,4 +386,71 @@ open Proto in
 /-- a cut *to* the helper's own choice point (the goal is still running) runs nothing -/
 example : (run init [.install 7, .push, .cut 1]).ran = [] := by decide
 
+/-! ## non-vacuity: the interpreter on concrete nested goals -/
+
+mutual
+/-- prefix token list of a term (only used to compare concrete traces by `decide`) -/
+def toks : Term → List String
+  | .var v => ["?" ++ v]
+  | .int v => [if v < 0 then "-" ++ toString v.natAbs else toString v.natAbs]
+  | .atom a => [a]
+  | .str f args => (f ++ "/") :: toksList args
+  | _ => ["#"]
+def toksList : List Term → List String
+  | [] => ["."]
+  | t :: ts => toks t ++ toksList ts
+end
+
+def evsOf (r : XRes) : List (List String) := r.items.filterMap fun | .ev t => some (toks t) | _ => none
+def mksOf (r : XRes) : List (Option CK) :=
+  r.items.filterMap fun | .su => some none | .cl k => some (some k) | _ => none
+private def ev' (t : Term) : Term := .str "ev" [t]
+private def cj (a b : Term) : Term := .str "," [a, b]
+private def dj (a b : Term) : Term := .str ";" [a, b]
+private def eq' (a b : Term) : Term := .str "=" [a, b]
+private def x12 : Term := dj (eq' (.var "X") (.int 1)) (eq' (.var "X") (.int 2))
+
+/-- `catch((X = 1, throw(b(X,Y))), b(P,Q), ev(r(P,X)))`: the ball carries the binding of `X` (copy
+    made at the throw), the recovery goal sees `X` unbound again. The hypotheses of
+    `C12_catch_recovers_from_entry_substitution` hold for this goal. -/
+example :
+    let g := cj (eq' (.var "X") (.int 1)) (.str "throw" [.str "b" [.var "X", .var "Y"]])
+    let c : Term := .str "b" [.var "P", .var "Q"]
+    let s : XS := ⟨[], 0, true, []⟩
+    (callInner (solve 12 []) 12 s g []).oof = false
+    ∧ (match (callInner (solve 12 []) 12 s g []).exc with
+        | some (ball, _) => (match unify 12 s.σ c ball with | some (some _) => true | _ => false)
+        | none => false) = true
+    ∧ evsOf (runTop 14 [] (.str "catch" [g, c, ev' (.str "r" [.var "P", .var "X"])]))
+        = [["r/", "1", "?X", "."]] := by decide
+
+/-- innermost matching catcher: the inner catcher `b` does not match `a`, the outer one does. -/
+example :
+    evsOf (runTop 14 [] (.str "catch" [.str "catch" [.str "throw" [.atom "a"], .atom "b", ev' (.atom "wrong")],
+        .atom "a", ev' (.atom "outer")])) = [["outer"]] := by decide
+
+/-- `setup_call_cleanup(ev(s), (X=1;X=2), ev(c(X))), ev(got(X)), !`: non-deterministic exit, the cut runs
+    the handler (kind `cut`) with the current binding of `X`. -/
+example :
+    let g := cj (.str "setup_call_cleanup" [ev' (.atom "s"), x12, ev' (.str "c" [.var "X"])])
+                (cj (ev' (.str "got" [.var "X"])) (.atom "!"))
+    evsOf (runTop 14 [] g) = [["s"], ["got/", "1", "."], ["c/", "1", "."]]
+    ∧ mksOf (runTop 14 [] g) = [none, some .cut] := by decide
+
+/-- a ball passing a non-deterministically exited goal runs its handler (kind `exc`, bindings of the
+    goal already undone), then the catcher gets the ball. -/
+example :
+    let g : Term := .str "catch" [cj (.str "setup_call_cleanup" [.atom "true", x12, ev' (.str "c" [.var "X"])])
+                                     (.str "throw" [.atom "k"]), .atom "k", ev' (.atom "r")]
+    evsOf (runTop 20 [] g) = [["c/", "?X", "."], ["r"]]
+    ∧ mksOf (runTop 20 [] g) = [none, some .exc] := by decide
+
+/-- deterministic exit (second answer of the goal) and exhaustion. -/
+example :
+    let g := cj (.str "setup_call_cleanup" [.atom "true", x12, ev' (.atom "c")]) (cj (ev' (.str "got" [.var "X"])) (.atom "fail"))
+    evsOf (runTop 20 [] g) = [["got/", "1", "."], ["c"], ["got/", "2", "."]]
+    ∧ mksOf (runTop 20 [] g) = [none, some .exit]
+    ∧ mksOf (runTop 20 [] (.str "setup_call_cleanup" [.atom "true", .atom "fail", ev' (.atom "c")])) = [none, some .fail] := by
+  decide
+
 end Scryer.Exc
